@@ -26,11 +26,16 @@ var thief = common.HexToAddress("0x4dC6ac40Af078661fc43823086E1513635Eeab14")
 var moduleAccounts = []string{aggregatetypes.ModuleName, rvestingtypes.ModuleName, authtypes.FeeCollectorName, distrtypes.ModuleName,
 	stakingtypes.BondedPoolName, stakingtypes.NotBondedPoolName, govtypes.ModuleName}
 
+type valRate struct {
+	shares sdk.Dec
+	tokens sdk.Int
+}
+
 type snap struct {
 	bal    map[string]*big.Int // "bank|<acct>|<denom>", "erc20|<contract>|<acct>", "supply|<denom>", "tsupply|<contract>"
 	stores map[string]map[string]string
 	stake  map[string]string
-	rate   map[string]sdk.Dec // validator -> delegator shares per token
+	rate   map[string]valRate // validator -> delegator shares and tokens (their ratio is the price of a share)
 }
 
 func compact(v string) string {
@@ -108,10 +113,10 @@ func (w *world) snapshot() *snap {
 		}
 	}
 	s.stake = w.stakeState()
-	s.rate = map[string]sdk.Dec{}
+	s.rate = map[string]valRate{}
 	for _, v := range w.c.App.StakingKeeper.GetAllValidators(w.c.ReadCtx()) {
 		if v.Tokens.IsPositive() {
-			s.rate[v.OperatorAddress] = v.DelegatorShares.QuoInt(v.Tokens)
+			s.rate[v.OperatorAddress] = valRate{shares: v.DelegatorShares, tokens: v.Tokens}
 		}
 	}
 	for _, name := range []string{"aggregate", "bank", "evm", "staking", "gov", "distribution"} {
